@@ -45,6 +45,10 @@ CHECKS["C05"] = dict(category="exploration",
    technique="bit-for-bit differential of the DOM annotation left by ChartToC::prepare against the Lean model Model.Tables; Lean theorems about the modelled relations (symmetry of conflicts, exit set below domain)",
    text="Model.Tables recomputes documentOrder/parent/childBools/ancBools/completionBools (incl. the history 'covered' bookkeeping)/exitSetBools/conflictBools/targetBools by the same walks as Predicates.cpp; compared on every state and transition of random charts up to 24 states. Structural theorems proved so far are properties of the modelled relations, not yet the equality with the interval characterisation / Appendix D sets, hence 'exploration'.",
    design_ref="6 / C05", note="Trusted: hand model Model.Tables and the flatten model of resortStates/numbering; the text of the emitted C/Promela/VHDL is compared by C04/C06/C18.")
+CHECKS["C19"] = dict(category="exploration",
+   technique="Lean model of the validator's fatal structural checks compared class-by-class with Interpreter::validate() on valid and corrupted documents; accepted documents are interpreted and every configuration decided by Spec.Legal; crash-freedom on random SCXML-vocabulary XML",
+   text="Soundness: documents validate() accepts are run through the interpreter (no crash, only legal configurations). Completeness: generated valid documents (also with id-less states, null and lua datamodels) must be free of fatal issues and syntax-error warnings. Totality: corrupted documents and random element soup. The Lean model of the fatal checks agrees with the code on all classes; theorems about it are still to come, hence 'exploration'.",
+   design_ref="6 / C19", note="Trusted: hand model Model.Validate (structural fatal checks only); generators define what 'valid' means for the completeness stream (ids unique, targets resolve, legal state specifications, one default transition per history/initial).")
 PENDING = {}   # id -> reason (filled while the framework is being built)
 
 def main():
